@@ -3,6 +3,7 @@ import json
 import numpy as np
 
 from harness.proj import to_rat, rat_close, relayout
+from checks import binding
 from harness.core import Machinery
 
 LEVEL = "model_checking"
@@ -81,7 +82,7 @@ SCALES = [1.0, 0.25, 1024.0]
 
 
 def spec_to_code(ctx, dutils):
-    res = ctx.tlc("AggregateDump", "MC_AggregateDump_%s.cfg" % ctx.tier, timeout=1500)
+    res = ctx.tlc("AggregateDump", "MC_AggregateDump_%s.cfg" % ctx.tier, workers=16, timeout=1500)
     cases = res.printed()
     if len(cases) < 1000:
         raise Machinery("generator produced only %d behaviours" % len(cases))
@@ -159,10 +160,11 @@ def code_to_spec(ctx, dutils, ncases, maxlen):
             recs.append(rec)
             f.write(json.dumps(rec) + "\n")
             ctx.count(rec, e is None and len(set(rec["ix"])) < len(rec["ix"]))
-    res = ctx.tlc("AggregateTrace", "MC_AggregateTrace.cfg", workers=1, timeout=1800,
+    res = ctx.tlc("AggregateTrace", "MC_AggregateTrace.cfg", timeout=1800,
                   env={"TRACE_FILE": str(path)})
     if not res.tuples("VALIDATED"):
         raise Machinery("trace validation did not complete:\n" + res.out[-2000:])
+    ctx.binding_demo("AggregateTrace", "MC_AggregateTrace.cfg", path, binding.aggregate, timeout=1800)
     for line in res.tuples("REJECT"):
         parts = line.strip("<>").split(",")
         t = int(parts[1]) - 1
@@ -185,7 +187,8 @@ def run(ctx):
                 "C->S: seeded random calls (length<=maxlen, int32-extreme indices, NaN groups) validated by "
                 "AggregateTrace.tla. non-trivial = accepted call with at least one group of >= 2 elements; "
                 "distinct = distinct (op,maxnan,ix,xs).")
-    res = ctx.tlc("Aggregate", "MC_Aggregate_%s.cfg" % ctx.tier, timeout=3000, coverage=False)
+    res = ctx.tlc("Aggregate", "MC_Aggregate_%s.cfg" % ctx.tier, workers=16, timeout=3000, coverage=True)
+    ctx.require_actions(res, ["Consume"], "Aggregate")
     if res.violated:
         raise Machinery("design model violates its contract: %s" % res.violated)
     ctx.part("model_check", states=res.distinct, generated=res.generated, depth=res.depth,
